@@ -1,4 +1,5 @@
 //! Shared utilities of the verification harnesses (deterministic PRNG, token output, simulated chain).
+pub mod evlog;
 pub mod rng;
 pub mod simchain;
 pub mod locks;
